@@ -179,7 +179,11 @@ let mode_of (opts : int) : wdmode =
                                 exists already: an earlier module's call got there), the top-level leaves, the nested
                                 leaves again (twice). Each phase creates the missing defaults of its level and
                                 resolves the conditional ones among them (queue = the new nodes only, all flagged
-                                was-true); explicit nodes are neither queued nor judged -> I0 <n=v[d];...> | ISTUCK
+                                was-true); explicit nodes are neither queued nor judged -> I0 <n=v[d];...> | ISTUCK.
+                                When box did not exist before (phases: top-level, nested) and no new top-level
+                                condition reads a new nested node - the side condition of C07_when_resolution_phases_ext
+                                - the answer ends in J=1 iff ONE wrun over all new nodes gives the same world (J=0
+                                would contradict the theorem)
      #new <n> <v> / #free <n>   the edit the neighbouring lyx command makes (lyd_new_path with UPDATE / lyd_free_tree)
      val t0 ...                 missing defaults are created (flagged was-true, as lyd_new_implicit does), every present
                                 node with a condition is queued, wrun -> V0 <n=v[d];...> | VE | VSTUCK; afterwards
@@ -201,6 +205,14 @@ let parse_cexp (s : string) : cexp =
     | 'O' -> let a = go () in let b = go () in COr (a, b)
     | _ -> raise (Tree_io "expr") in
   go ()
+
+let rec cexp_deps (c : cexp) : int list =
+  match c with
+  | CTrue -> []
+  | CHas d -> [int_of_nat d]
+  | CEq (d, _) -> [int_of_nat d]
+  | CNot a -> cexp_deps a
+  | CAnd (a, b) | COr (a, b) -> cexp_deps a @ cexp_deps b
 
 let run_whenres (rest : string list) : string =
   let prog = ref [] and dflts = ref [] and tops = ref [] and box = ref false in
@@ -237,13 +249,31 @@ let run_whenres (rest : string list) : string =
                   wt := List.filter (fun n -> List.mem_assoc n !world) !wt
               | _ -> emit "ISTUCK"; dead := true
             end in
+          let box0 = !box and world0 = !world in
+          let missing sel = List.filter (fun (n, _) -> sel n && not (List.mem_assoc n world0)) !dflts in
+          let new_t = missing (fun n -> List.mem n !tops) and new_n = missing (fun n -> not (List.mem n !tops)) in
           if not (acyclicb p) then (emit "VCYCLE"; dead := true) else begin
             if !box then phase (fun n -> not (List.mem n !tops));
             phase (fun n -> List.mem n !tops);
             box := true;
             phase (fun n -> not (List.mem n !tops));
             phase (fun n -> not (List.mem n !tops));
-            if not !dead then emit ("I0 " ^ show ())
+            let joint =
+              if box0 || !dead then "" else
+              let side = List.for_all (fun (n, _) ->
+                match List.assoc_opt n !prog with
+                | None -> true
+                | Some c -> List.for_all (fun d -> not (List.mem_assoc d new_n)) (cexp_deps c)) new_t in
+              if not side then "" else begin
+                let wall = List.sort compare (world0 @ new_t @ new_n) in
+                let q = List.filter_map (fun (n, _) ->
+                  if List.mem_assoc n !prog then Some (nat_of_int n, true) else None) (new_t @ new_n) in
+                match wrun p (List.map (fun (n, v) -> (nat_of_int n, nat_of_int v)) wall) q with
+                | Done w when List.sort compare (List.map (fun (n, v) -> (int_of_nat n, int_of_nat v)) w)
+                              = List.sort compare !world -> " J=1"
+                | _ -> " J=0"
+              end in
+            if not !dead then emit ("I0 " ^ show () ^ joint)
           end
       | ["#new"; n; v] ->
           let n = int_of_string n and v = int_of_string v in
